@@ -794,10 +794,15 @@ impl<'d> Exec<'d> {
                             if spec.retain {
                                 p = p.retain();
                             }
+                            // both builder orders occur (decided by the request itself, so replays agree)
+                            let correlate_first = spec.correlate.as_ref().is_some_and(|c| (c.len() + spec.topic.len()) % 2 == 1);
+                            if correlate_first {
+                                p = p.correlate(spec.correlate.as_ref().unwrap());
+                            }
                             if !props.is_empty() || spec.correlate.is_none() {
                                 p = p.properties(&props);
                             }
-                            if let Some(c) = &spec.correlate {
+                            if let (Some(c), false) = (&spec.correlate, correlate_first) {
                                 p = p.correlate(c);
                             }
                             conn.publish(p).await.map_err(pub_err)
@@ -989,6 +994,9 @@ pub fn run_case(cfg: &CaseCfg, seed: u64, driver: &mut dyn Driver, max_steps: us
         // watchdog: two orders of magnitude above what any legitimate operation needs
         let mut w = world.borrow_mut();
         w.budget_bytes = w.budget_bytes.max(16 * cfg.tx);
+        // one-byte transfers with a Pending before each call need two calls per byte: the call
+        // budget of one operation covers the receive buffer and the arena four times over
+        w.budget_calls = w.budget_calls.max(4096 + 8 * (cfg.rx + cfg.tx));
     }
     let mut rx = vec![0u8; cfg.rx];
     let mut tx = vec![0u8; cfg.tx];
